@@ -14,7 +14,7 @@ assume: lzma_lzma_encode / lzma_lzma_encoder_reset are recording stubs (the LZMA
 /*@obligation
 id: C01.lzma2.chunk.noprops
 defs: -DNEED_PROPS=0
-props: C01 C02 C12
+props: C01 C02 C12 C06
 entry: h_l2e_chunk
 unwind: 2
 fn: lzma2_encode lzma2_header_lzma lzma2_header_uncompressed
@@ -28,7 +28,7 @@ assume: lzma_lzma_encode is a stub that consumes any amount of match-finder data
 id: C01.lzma2.chunk.props
 tier: thorough
 defs: -DNEED_PROPS=1
-props: C01 C02 C12
+props: C01 C02 C12 C06
 entry: h_l2e_chunk
 unwind: 2
 fn: lzma2_encode lzma2_header_lzma lzma2_header_uncompressed
